@@ -10,6 +10,9 @@ import (
 	"github.com/free5gc/nas/nasConvert"
 	"github.com/free5gc/openapi/models"
 
+	"os"
+	"path/filepath"
+	"sort"
 	"verif/mc/core"
 	"verif/mc/ref/refconv"
 )
@@ -441,6 +444,48 @@ func c17Run(c *core.Ctx) {
 			n += int64(len(seq))
 		}
 	}
+	// every civil time zone of the system's time zone database and every change of its offset between 2000 and 2100:
+	// the second before, the instant of, the second after and the day after each transition, and the middle of the
+	// period that follows (what a zone does at its own rule changes — double summer time, a summer-time period that
+	// follows another one, a jump across the date line — is in the database, not in any alphabet of offsets)
+	{
+		names := c17AllZones()
+		if len(names) == 0 && c.Shard == 0 {
+			c.Cap("no time zone database under /usr/share/zoneinfo: only the built-in zone alphabet is explored")
+		}
+		for zi, name := range names {
+			if !c.Mine(zi + 11) {
+				continue
+			}
+			loc, err := c17Location(name)
+			if err != nil {
+				continue
+			}
+			if !c.Begin("zone-transitions", "UniversalTime", map[string]string{"location": name}) {
+				continue
+			}
+			t := time.Date(2000, 1, 1, 0, 0, 0, 0, time.UTC).In(loc)
+			limit := time.Date(2100, 1, 1, 0, 0, 0, 0, time.UTC)
+			for k := 0; k < 400; k++ {
+				_, end := t.ZoneBounds()
+				if end.IsZero() || end.After(limit) {
+					break
+				}
+				_, next := end.ZoneBounds()
+				mid := end.Add(45 * 24 * time.Hour)
+				if !next.IsZero() {
+					mid = end.Add(next.Sub(end) / 2)
+				}
+				for _, u := range []int64{end.Unix() - 1, end.Unix(), end.Unix() + 1, end.Unix() + 86400, mid.Unix()} {
+					c17StampExec(c, c17Stamp{Unix: u, Location: name})
+					n++
+				}
+				t = end
+			}
+			c.Tick()
+		}
+		c.Add("time_zones_walked", int64(len(names)))
+	}
 	// the zone the process itself runs in must not matter: three civil zones (and a fixed-offset walk) again with
 	// time.Local set to a zone west and a zone east of Greenwich
 	for li, name := range []string{"Europe/Berlin", "America/New_York", "Australia/Lord_Howe", "UTC"} {
@@ -560,4 +605,32 @@ func init() {
 		},
 		Finish: finishDistinct("distinct by (kind, all inputs); non-trivial = durations and bit rates above zero, zones other than +00:00 without DST, every time stamp, names of at least two characters"),
 	})
+}
+
+// c17AllZones lists the zone names of the system's time zone database (directory walk; names that do not load are
+// skipped by the caller).
+func c17AllZones() []string {
+	root := "/usr/share/zoneinfo"
+	var out []string
+	filepath.Walk(root, func(p string, fi os.FileInfo, err error) error { //nolint:errcheck
+		if err != nil {
+			return nil
+		}
+		rel, _ := filepath.Rel(root, p)
+		if fi.IsDir() {
+			if rel == "posix" || rel == "right" {
+				return filepath.SkipDir
+			}
+			return nil
+		}
+		if rel == "." || strings.ContainsAny(rel, ". ") && !strings.Contains(rel, "/") {
+			return nil // tables such as zone.tab, leapseconds
+		}
+		if len(rel) > 0 && rel[0] >= 'A' && rel[0] <= 'Z' {
+			out = append(out, filepath.ToSlash(rel))
+		}
+		return nil
+	})
+	sort.Strings(out)
+	return out
 }
